@@ -110,8 +110,49 @@ def job(kind, op, oc):
             'inconclusive': list(ex.inconclusive), 'wall_s': time.time() - t0, 'panic_paths': len([x for x in results if x.status != 'return'])}
 
 
+BUILTINS = {'abs': 1, 'sqrt': 1, 'floor': 1, 'ceil': 1, 'round': 1, 'pow': 2, 'log': 1, 'log10': 1, 'exp': 1, 'sin': 1, 'cos': 1, 'tan': 1, 'min': 2, 'max': 2,
+            'to_int': 1, 'to_float': 1, 'is_null': 1, 'is_int': 1, 'is_float': 1, 'is_string': 1, 'is_bool': 1, 'is_array': 1, 'is_map': 1}
+
+
+def builtin_job(name, oc):
+    """eval_builtin_function(name, args) for the scalar built-ins: arguments of any scalar class with symbolic payload; panic obligations only"""
+    from vlib import containers
+    from vlib.symex import StrConst
+    from vlib.containers import ListModel
+    mods = _MODS[oc]; t0 = time.time(); n = BUILTINS[name]
+
+    def h_streq(ex, st, callee, args):
+        a, b = args[0], args[1]
+        while isinstance(a, Ptr): a = a.get()
+        while isinstance(b, Ptr): b = b.get()
+        if isinstance(a, StrConst) and isinstance(b, StrConst): return BoolVal(a.lit == b.lit)
+        return NotImplemented
+    hooks = [(r'^<&?str as PartialEq(?:<&?str>)?>::eq$', h_streq)] + extra_hooks() + [(rx.pattern, fn) for rx, fn in containers.container_hooks()]
+    ex = V.ValExec(mods, hooks, overflow_checks=oc)
+    vals = []; st = State()
+    for i in range(n):
+        # to_int / to_float on a string go through str::parse (std number parsing over the text: outside)
+        classes = ['Int', 'Float', 'Null', 'Bool'] if name in ('to_int', 'to_float') else ['Int', 'Float', 'Str', 'Null', 'Bool']
+        v, c = V.sym_value('a%d' % i, classes); vals.append(v); st.path.assume(c)
+    sl = Ptr([ListModel(vals)], 0, meta=BitVecVal(n, 64))
+    results = ex.run(ex.find_func('eval_builtin_function'), [box(StrConst('"%s"' % name)), sl], st=st)
+    vs = discharge(ex, results, None)
+    out = []
+    for v in vs:
+        d = {'name': v.name, 'status': v.status, 'secs': v.secs, 'kind': v.kind, 'where': v.where}
+        if v.model is not None:
+            m = v.model
+            lc = cls_of(m, vals[0]); d.update({'lc': lc, 'l': payload_of(m, vals[0], lc)})
+            if n > 1:
+                rc = cls_of(m, vals[1]); d.update({'rc': rc, 'r': payload_of(m, vals[1], rc)})
+        out.append(d)
+    return {'kind': 'builtin', 'op': name, 'oc': oc, 'paths': len(results), 'verdicts': out, 'queries': ex.queries, 'solver_s': ex.solver_s,
+            'inconclusive': list(ex.inconclusive), 'wall_s': time.time() - t0, 'panic_paths': len([x for x in results if x.status != 'return'])}
+
+
 def _worker(a):
     try:
+        if a[0] == 'builtin': return builtin_job(a[1], a[2])
         return job(*a)
     except Exception as e:
         return {'kind': a[0], 'op': a[1], 'oc': a[2], 'error': '%s: %s' % (type(e).__name__, e), 'verdicts': [], 'paths': 0, 'queries': 0, 'solver_s': 0, 'inconclusive': []}
@@ -139,19 +180,21 @@ def run(ctx):
     binops = V.variants()['BinOp']; unops = V.variants()['UnaryOp']; exprs = V.variants()['Expr']
     ctx.bounds = {'operators': 'every BinOp (%d) and UnaryOp (%d) variant' % (len(binops), len(unops)), 'operand_values': 'every Value variant; all i64 / f64 / bool payloads symbolic; strings, arrays, maps opaque',
                   'profiles': 'overflow-checks on (dev) and off (release)', 'expr_variants_dispatch': [v for v in exprs if v not in COMPLEX_VARIANTS],
-                  'outside': 'arms of %s (std iterator/collection/formatting code), built-in functions, user functions, range sizes' % sorted(COMPLEX_VARIANTS)}
+                  'builtins': 'eval_builtin_function for the scalar built-ins %s with arguments of any scalar class (symbolic payloads)' % sorted(BUILTINS),
+                  'outside': 'arms of %s (std iterator/collection/formatting code), the string / array / map built-ins (len, substring, split, sort, range ...), user functions, range sizes' % sorted(COMPLEX_VARIANTS)}
     ctx.assumptions += ['recursive operand evaluations return an arbitrary Some(Value) of any variant', 'std string/collection comparisons and powi/powf do not panic (trusted std; modelled as fresh values)',
                         'float -> int `as` casts saturate (Rust semantics)']
     tasks = []
     for oc in profiles:
         tasks += [('binary', op, oc) for op in binops] + [('unary', op, oc) for op in unops]
         tasks += [('dispatch', v, oc) for v in exprs if v not in COMPLEX_VARIANTS and v not in ('Binary', 'Unary')]
+        tasks += [('builtin', b, oc) for b in BUILTINS]
     with ProcessPoolExecutor(max_workers=14, mp_context=mp.get_context('fork')) as pool:
         res = list(pool.map(_worker, tasks))
     bins = {}
     for r in res:
         prof = 'dev' if r['oc'] else 'release'
-        tgt = 'eval_expr_with_functions[%s %s]' % (r['kind'], r['op'])
+        tgt = ('eval_builtin_function[%s]' % r['op']) if r['kind'] == 'builtin' else 'eval_expr_with_functions[%s %s]' % (r['kind'], r['op'])
         if r.get('error'):
             ctx.inconclusive.append('%s (%s): %s' % (tgt, prof, r['error'])); continue
         for why in r['inconclusive']: ctx.inconclusive.append('%s (%s): %s' % (tgt, prof, why))
@@ -168,7 +211,8 @@ def run(ctx):
                 cmd = ['BIN:%s' % prof, 'recurse', r['op']]
             else:
                 key = 'eval_expr_with_functions:%s:%s:%s:%s' % (r['kind'], r['op'], v['name'].replace('no panic: ', '')[:40], prof)
-                if r['kind'] == 'binary': cmd = ['BIN:%s' % prof, 'panic', 'binary', r['op'], v.get('lc', 'Null'), v.get('l', 'x'), v.get('rc', 'Null'), v.get('r', 'x')]
+                if r['kind'] == 'builtin': cmd = ['BIN:%s' % prof, 'panic', 'builtin', r['op'], v.get('lc', 'Null'), v.get('l', 'x'), v.get('rc', 'Null'), v.get('r', 'x')]
+                elif r['kind'] == 'binary': cmd = ['BIN:%s' % prof, 'panic', 'binary', r['op'], v.get('lc', 'Null'), v.get('l', 'x'), v.get('rc', 'Null'), v.get('r', 'x')]
                 else: cmd = ['BIN:%s' % prof, 'panic', 'unary', r['op'], v.get('lc', 'Null'), v.get('l', 'x')]
             if key in bins: continue
             bins[key] = Finding(key, '%s [%s profile]: %s (operands %s %s / %s %s)' % (tgt, prof, v['name'], v.get('lc'), v.get('l'), v.get('rc'), v.get('r')), cmd, dict(v))
